@@ -9,9 +9,9 @@ git -C $WT diff > $OUT/patch.diff
 cp $WT/demo_*.py $OUT/ 2>/dev/null
 DEMO=$(ls $WT/demo_*.py | head -1)
 echo "== demo WITH change"; (cd $WT && PYTHONPATH=$WT timeout 900 /venv/bin/python $DEMO > $OUT/demo_with.log 2>&1; echo "exit=$?" | tee -a $OUT/demo_with.log; tail -3 $OUT/demo_with.log)
-git -C $WT stash -q
+git -C $WT apply -R $OUT/patch.diff   # (not `git stash`: the stash is shared by all worktrees of /repo)
 echo "== demo WITHOUT change"; (cd $WT && PYTHONPATH=$WT timeout 900 /venv/bin/python $DEMO > $OUT/demo_without.log 2>&1; echo "exit=$?" | tee -a $OUT/demo_without.log; tail -2 $OUT/demo_without.log)
-git -C $WT stash pop -q
+git -C $WT apply $OUT/patch.diff
 echo "== pinned tests WITH change"; (cd $WT && /venv/bin/python -m pytest -q -p no:cacheprovider ciderpress/dft/tests/test_feat_normalizer.py ciderpress/dft/tests/test_transform_data.py ciderpress/models/tests/test_kernels.py 2>&1 | tail -1 | tee $OUT/tests_with.log)
 echo "== check $P on /repo WITH the patch"
 git -C /repo apply $OUT/patch.diff || { echo "patch does not apply to /repo"; exit 2; }
